@@ -117,6 +117,7 @@ class Data:
             "brk": self.brk, "mk_axs": self.mk_axs, "agen": self.agen,
             "xs": list(range(1, p["n"] + 1)), "tree": p["tree"],
             "layout": p["layout"], "flag": True,
+            "incname": "inc.j2", "nonename": "nope.j2",
         }
 
 
@@ -263,9 +264,21 @@ class G:
         r = self.r
         tpls = {}
         roles = {}
-        self.includes = ["{% include 'inc.j2' %}", "{% include 'inc.j2' without context %}",
-                         "{% include ['nope.j2', 'inc.j2'] %}",
-                         "{% include 'nope.j2' ignore missing %}"]
+        # include statements: every target form x every modifier combination.
+        # Missing targets only together with ``ignore missing`` (otherwise the
+        # clean run raises TemplateNotFound and the set is not a case).
+        existing = ["'inc.j2'", "'inc.j2'", "'inc2.j2'", "['nope.j2', 'inc.j2']",
+                    "['inc.j2', 'nope.j2']", "incname", "[nonename, incname]"]
+        missing = ["'nope.j2'", "['nope.j2', 'nope2.j2']", "nonename"]
+        ctxmods = ["", "", " with context", " without context"]
+        self.includes = []
+        for tgt in existing:
+            for ign in ("", " ignore missing"):
+                for cm in ctxmods:
+                    self.includes.append("{% include " + tgt + ign + cm + " %}")
+        for tgt in missing:
+            for cm in ctxmods:
+                self.includes.append("{% include " + tgt + " ignore missing" + cm + " %}")
         self.lib_calls = ["{{ lib.mac(%s) }}", "{{ mac2(%s) }}",
                           "{%% call lib.wrap(%s) %%}{{ af('cw') }}{%% endcall %%}"]
 
@@ -280,6 +293,15 @@ class G:
         fresh(3, False, "")
         tpls["inc.j2"] = "<i>" + self.body(2, [], 2) + "</i>"
         roles["inc.j2"] = "include"
+        # a second include target that itself includes the leaf (nested
+        # include streams, each with its own modifier combination)
+        self.includes = [saved[0][i] for i in sorted(r.sample(range(len(saved[0])), 3))
+                         if "inc2" not in saved[0][i]] or ["J"]
+        fresh(2, False, "")
+        tpls["inc2.j2"] = "<j>" + self.leaf([]) + self.body(1, [], 1) + r.choice(self.includes) \
+            + self.leaf([]) + "</j>"
+        roles["inc2.j2"] = "include"
+        self.includes = ["I"]
         fresh(4, False, "")
         tpls["lib.j2"] = (
             ("{% set libv = sf('libtop') %}" if r.random() < 0.5 else "")
@@ -365,6 +387,13 @@ FIXED = [
     {"name": "filter-in-block-in-include",
      "main": "{% include 'inc.j2' %}{% block b %}{% for x in agen(3) if ok(x) %}{{ af(x) }}{% endfor %}{% endblock %}",
      "inc.j2": "{% for x in xs if aok(x) %}{{ x }}{{ af(x) }}{% endfor %}"},
+    {"name": "include-modifiers",
+     "main": "A{% include 'inc.j2' ignore missing %}B{{ af('m') }}"
+             "{% include ['nope.j2', 'inc.j2'] ignore missing with context %}C"
+             "{% include 'inc.j2' ignore missing without context %}D"
+             "{% include 'nope.j2' ignore missing %}{% include incname %}"
+             "{% for x in xs if ok(x) %}{% include [nonename, incname] ignore missing %}{% endfor %}Z",
+     "inc.j2": "i{{ af('i') }}j{% for x in xs if aok(x) %}{{ x }}{% endfor %}k{{ sf('k') }}l"},
     {"name": "import-macro-filter",
      "main": "{% import 'lib.j2' as lib %}{{ lib.mac(2) }}{{ af('e') }}",
      "lib.j2": "{% macro mac(a) %}{% for x in xs if ok(x) %}{{ af(a) }}{% endfor %}{% endmacro %}{{ af('top') }}"},
